@@ -636,6 +636,40 @@ C16_WORKLOADS += [
 ]
 
 
+def prep_unlimited(L, d):
+    sd = L.SDstart(_p(d), DFACC_CREATE)
+    s = L.SDcreate(sd, b"u", DFNT["int16"], 2, i32arr([SD_UNLIMITED, 3]))
+    L.SDwritedata(s, i32arr([0, 0]), None, i32arr([2, 3]), pack(22, list(range(6))))
+    L.SDendaccess(s)
+    s = L.SDcreate(sd, b"fixed", DFNT["int32"], 1, i32arr([4]))
+    L.SDwritedata(s, i32arr([0]), None, i32arr([4]), pack(24, [1, 2, 3, 4]))
+    L.SDendaccess(s)
+    L.SDend(sd)
+
+
+def w_sd_append_second_session(L, d, rec):
+    """records appended to an unlimited data set in a later session, nothing else changed: at SDend only the
+    record count (dimension Vdata) is rewritten, not the whole metadata"""
+    sd = rec("SDstart", L.SDstart(_p(d), DFACC_RDWR), FAIL)
+    if sd == FAIL:
+        return
+    idx = rec("SDnametoindex", L.SDnametoindex(sd, b"u"), FAIL)
+    s = rec("SDselect", L.SDselect(sd, max(idx, 0)), FAIL)
+    if s != FAIL:
+        rec("SDwritedata", L.SDwritedata(s, i32arr([2, 0]), None, i32arr([2, 3]), pack(22, [20, 21, 22, 23, 24, 25])), FAIL)
+        b = CBuf(24)
+        r = rec("SDreaddata", L.SDreaddata(s, i32arr([0, 0]), None, i32arr([4, 3]), b.ptr), FAIL)
+        rec.data("SDreaddata.data", b.raw() if r != FAIL else b"")
+        b.free()
+        rec("SDendaccess", L.SDendaccess(s), FAIL)
+    rec("SDend", L.SDend(sd), FAIL)
+
+
+C16_WORKLOADS += [
+    ("sd_append_second_session", prep_unlimited, w_sd_append_second_session, False),
+]
+
+
 # ---- pre-populated files whose LAST thing is a descriptor block / whose refs have wrapped (C17)
 def prep_h_dup_tail(L, d, ndds=4):
     """two sessions: the second fills the first DD block exactly and then creates a DD (Hdupdd: no data)
